@@ -17,6 +17,13 @@
 #ifndef KMAX
 #define KMAX 3
 #endif
+#ifndef P1
+#define P1 0
+#endif
+#ifndef P2LO
+#define P2LO 0
+#define P2HI 99
+#endif
 #define NPATMAX 15        // Bell(4)
 
 static const char ALPHA[] = "az_A";       // label -> character; includes 'a'/'z' (the letters the last-resort loop appends)
@@ -118,12 +125,8 @@ extern "C" void harness_c03_hash_signature() {
   __ll2c_global_ctors();
   make_patterns();
   ASSERT(g_npat == (KMAX == 2 ? 2 : KMAX == 3 ? 5 : 15), "C03 harness enumerates every set partition");
-#ifdef ONLY
-  scenario(ONLY / 100, ONLY % 100);
-#else
-  for (int p1 = 0; p1 < g_npat; p1++)
-    for (int p2 = 0; p2 < g_npat; p2++)
-      scenario(p1, p2);
-#endif
+  // one catalogue entry per first-level partition P1 (symbolic execution slows down superlinearly with the number of
+  // heap objects alive in one query), all second-level partitions inside
+  for (int p2 = P2LO; p2 < g_npat && p2 < P2HI; p2++) scenario(P1, p2);
   WITNESS();
 }
